@@ -388,6 +388,16 @@ func buildPool() {
 	marshal("marshal/struct/omitzero-stringify-html", "omitzero+stringify+html+nilnull", "", fixed(&item{ID: 3, Name: "<b>&\u2028", Tags: nil}),
 		json.OmitZeroStructFields(true), json.StringifyNumbers(true), jsontext.EscapeForHTML(true), jsontext.EscapeForJS(true), json.FormatNilSliceAsNull(true), json.FormatNilMapAsNull(true))
 	marshal("marshal/struct/v1", "v1-defaults", "", fixed(&item{ID: 3, Name: "<b>&", Bin: []byte{1, 2}}), jsonv1.DefaultOptionsV1())
+	marshal("marshal/embed-map/deterministic", "deterministic", "", fixed(&embedMapTarget{1, map[string]any{"z": 1.0, "y": "s", "x": nil}}), json.Deterministic(true))
+	marshal("marshal/nested-maps/deterministic", "deterministic", "", fixed(map[string]any{
+		"k1": map[string]any{"a": 1.0, "b": 2.0, "c": 3.0},
+		"k2": map[string]any{"d": 4.0, "e": map[string]any{"g": 1.0, "h": 2.0}, "f": 6.0},
+		"k3": map[string]any{"i": 7.0, "j": 8.0},
+	}), json.Deterministic(true))
+	marshal("marshal/nested-typed-maps/deterministic", "deterministic", "", fixed(map[string]map[string]int{
+		"m1": {"a": 1, "b": 2, "c": 3}, "m2": {"d": 4, "e": 5}, "m3": {"f": 6, "g": 7, "h": 8},
+	}), json.Deterministic(true))
+	unmarshal("unmarshal/embed-fallback", "default", "", docUnknown, func() any { return new(embedMapTarget) })
 	marshal("marshal/escnames/default", "default", "", fixed(&escNames{1, 2, 3, 4, 5}))
 	marshal("marshal/escnames/js", "js", "", fixed(&escNames{1, 2, 3, 4, 5}), jsontext.EscapeForJS(true))
 	marshal("marshal/escnames/html", "html", "", fixed(&escNames{1, 2, 3, 4, 5}), jsontext.EscapeForHTML(true))
